@@ -96,14 +96,12 @@ MalformedRejected == \A m \in Malformed(Encode(f)) : Decode(m) = Rejected
 FieldMutantsDecided == \A m \in FieldMutants(Encode(f)) : Decode(m).t \in {"REJECT", "DATA", "ACKF", "ERR"}
 
 Variants(b) == Malformed(b) \cup FieldMutants(b)
-(* every input too short to be derived from a frame: the empty body (a datagram that is nothing but a checksum - the CRC of
-   the empty string is 0, so four zero bytes are "CRC-valid"), every single byte, and every second byte after each known
-   and some unknown type bytes *)
-ShortBodies == {<<>>} \cup { <<a>> : a \in 0..255 } \cup { <<t, a>> : t \in {0, 1, 2, 3, 4, 5, 10, 11, 12, 6, 13, 255}, a \in 0..255 }
-ShortBodiesDecided == \A b \in ShortBodies : Decode(b) = Rejected \/ Decode(b).t \in {"DISC", "DISCACK", "SYNC"}
-ASSUME ShortBodiesDecided
-DumpMutants == ndJsonSerialize(IOEnv.MUTANTS, SetToSeq({ [body |-> m] : m \in ShortBodies }
-                   \cup UNION { { [body |-> m] : m \in Variants(Encode(g)) } : g \in { h \in Frames : Len(Encode(h)) <= 400 } }))
+(* Inputs too short to be derived from a frame - the empty body (a datagram that is nothing but a checksum: the CRC of the
+   empty string is 0, so four zero bytes are "CRC-valid"), every single byte, every second byte after each known and some
+   unknown type bytes - are enumerated by the harness (uvh codec --mutants) and judged by MonCodec against Decode like
+   every other input.  (Defining that set here made TLC's eager evaluation of constant definitions overflow its stack in
+   one start out of three.) *)
+DumpMutants == ndJsonSerialize(IOEnv.MUTANTS, SetToSeq(UNION { { [body |-> m] : m \in Variants(Encode(g)) } : g \in { h \in Frames : Len(Encode(h)) <= 400 } }))
 
 Dump == ndJsonSerialize(IOEnv.VECTORS, SetToSeq(Frames))
 Written == Dump /\ DumpMutants            \* POSTCONDITION: evaluates Dump once, writing the vectors file
